@@ -213,40 +213,133 @@ def _enclosing_ifs(root, target):
 
 
 def r3(ctx, fn, lp):
+    """chaining inside a block, decided on the E5 effect summary of Feedback::forward (independent of spelling)"""
     c = ctx.crate
-    st = top_stmts_of(lp["body"])
-    x0 = st[0]
-    ok = x0.get("k") == "let" and pretty(strip(x0["init"])) == "activated.last().unwrap().clone()"
-    ctx.check("R11.3", "consumes-last-activated", ok, "position-input:" + short(pretty(x0), 60), c.loc(fn, lp), "x = activated.last().unwrap().clone()")
-    xh = x0["pat"]["hid"] if ok else None
-    lh = pat_binds(lp["pat"])[1][1]
-    m = [s for s in walk(lp["body"]) if s.get("k") == "match" and e4.local_hid(s["scrut"]) == lh]
-    if len(m) != 1:
-        raise Unestablished("no match on the layer", c.loc(fn, lp))
-    for arm in m[0]["arms"]:
-        vp, b = e4.arm_variant(arm)
-        kind = vp.split("::")[-1]
-        if kind == "Feedback" or not b:
+    from .. import e5
+    E = e5.Exec(c, fn)
+    fpaths = [p for p in E.run_fn() if p.exit is None or p.exit[0] == "return"]
+    if not fpaths:
+        raise Unestablished("Feedback::forward: no non-panicking path", c.loc(fn))
+    # the position walk: the `for` loop whose body applies the layers' forward
+    walk_ids = [lid for lid, s_ in E.loop_summaries.items() if s_.get("kind") == "for"
+                and any(e5.find_terms(tuple(p.eff), lambda t: t[0] == "call" and t[1].endswith("::forward")) for p in s_["paths"])]
+    walk_ids = [l for l in walk_ids if not any(l2 != l and _loop_inside(E, l, l2) for l2 in walk_ids)]
+    if len(walk_ids) != 1:
+        raise Unestablished("Feedback::forward: expected one walk over the positions, found %d" % len(walk_ids), c.loc(fn))
+    lid = walk_ids[0]
+    S = E.loop_summaries[lid]
+    it = S["iter"]
+    lnode = S["node"]
+    args_ = e5.is_call(it, "enumerate", 1)
+    ok_it = args_ is not None and args_[0] == ("field", ("p", "self"), "layers")
+    ctx.check("R11.3", "walks-positions-in-order", ok_it, "position-walk:" + short(e5.show(it, 2), 60), c.loc(fn, lnode), "for (i, layer) in self.layers.iter().enumerate()")
+    elem = ("elem", it, lid)
+    layer_t = e5.mk_proj(elem, 1)
+    # roles from the returned tuple: (first pre, final output, maxpools, unactivated, activated)
+    ret = fpaths[0].val if fpaths[0].exit is None else fpaths[0].exit[1]
+    comps = ret[1] if isinstance(ret, tuple) and ret and ret[0] == "tup" else ()
+    names = [e5.root_name(_base_of(x)) for x in comps]
+    okr = len(comps) >= 5 and names[3] is not None and names[4] is not None and names[0] == names[3] and names[1] == names[4]
+    first = comps[0] if comps else None
+    okr = okr and isinstance(first, tuple) and first[0] == "idx" and first[2] == ("lit", "0")
+    if okr:
+        fin = comps[1]
+        a_last = e5.is_call(fin, "unwrap", 1)
+        okr = (isinstance(fin, tuple) and fin[0] == "idx" and isinstance(fin[2], tuple) and fin[2][0] == "bin" and fin[2][1] == "Sub"
+               and e5.is_call(fin[2][2], "len", 1) is not None and e5.is_call(fin[2][2], "len", 1)[0] == fin[1] and fin[2][3] == ("lit", "1")) \
+            or (a_last is not None and e5.is_call(a_last[0], "last", 1) is not None)
+    ctx.check("R11.3", "reports-first-pre-and-final-output", bool(okr), "block-result:" + short(",".join(e5.show(x, 2) for x in comps), 80), c.loc(fn),
+              "(unactivated[0], activated[last], .., unactivated, activated)")
+    if not okr:
+        return
+    un_n, act_n = names[3], names[4]
+    max_n = e5.root_name(e5.is_call(comps[2], "nestedoptional", 1)[0]) if e5.is_call(comps[2], "nestedoptional", 1) else None
+    body = S["paths"]
+    X0 = None
+    for v in c.adts["network::Layer"]["variants"]:
+        kind = v["name"]
+        vp = "network::Layer::" + kind
+        mine = [p for p in body if e5.variant_of(p).get(layer_t) == vp]
+        live = [p for p in mine if p.exit is None]
+        where = c.loc(fn, lnode)
+        if kind == "Feedback":
             continue
-        fw = [y for y in walk(arm["body"]) if y.get("k") == "mcall" and y["name"] == "forward"]
-        asrt = [y for y in walk(arm["body"]) if y.get("mac") == "assert_eq_shape" and y.get("k") == "if"]
-        ok = (len(fw) == 1 and e4.local_hid(fw[0]["args"][0]) == xh and e4.local_hid(fw[0]["recv"]) == b[0][1] and len(asrt) == 1
-              and sorted([pretty(strip(strip(asrt[0]["c"])["l"])), pretty(strip(strip(asrt[0]["c"])["r"]))]) == sorted(["%s.inputs" % b[0][0], "x.shape"]))
-        ctx.check("R11.3", "position:" + kind, ok, "position-arm:" + kind, c.loc(fn, arm["body"]), "assert shape; layer.forward(&x)")
-    t = pretty(lp["body"])
-    ctx.check("R11.3", "records", "unactivated.push(pre)" in t and "activated.push(post)" in t and "maxpools.push(max)" in t, "recording", c.loc(fn, lp), "push pre, post, max")
-    full = pretty(fn["body"])
-    ok = "if self.flatten { activated.push(last.flatten()) } else { activated.push(last) }" in full and "let last = activated.pop().unwrap()" in full
-    ctx.check("R11.3", "flatten-iff-flag", ok, "flatten-handling", c.loc(fn), "output flattened iff self.flatten")
-    tail = strip(top_stmts_of(fn["body"])[-1])
-    got = [pretty(strip(z)) for z in tail["xs"]] if tail.get("k") == "tup" else []
-    ok = got[:2] == ["unactivated[0].clone()", "activated[(activated.len() - 1)].clone()"]
-    ctx.check("R11.3", "reports-first-pre-and-final-output", ok, "block-result:" + ",".join(got)[:80], c.loc(fn), "(unactivated[0], activated[last], ..)")
+        payload_ty = v["fields"][0]["ty"]
+        pay = ("payload", layer_t, vp, 0)
+        ok = bool(live)
+        why = ""
+        for p in live:
+            fwd = e5.find_terms(tuple(p.eff), lambda t: t[0] == "call" and t[1] == payload_ty + "::forward")
+            F = fwd[0] if fwd else None
+            if F is None or any(f != F for f in fwd) or len(F[2]) != 2 or F[2][0] != pay:
+                ok, why = False, "the layer's forward is not applied (once) to the position's input"
+                break
+            xin = F[2][1]
+            want_max = ("var", "Option::None", ()) if kind != "Maxpool" else ("var", "Option::Some", (e5.mk_proj(F, 2),))
+            if e5.pushes_to(p, un_n) != [e5.mk_proj(F, 0)] or e5.pushes_to(p, act_n) != [e5.mk_proj(F, 1)] or (max_n and e5.pushes_to(p, max_n) != [want_max]):
+                ok, why = False, "records %s / %s / %s" % ([e5.show(t_, 2) for t_ in e5.pushes_to(p, un_n)], [e5.show(t_, 2) for t_ in e5.pushes_to(p, act_n)],
+                                                          [e5.show(t_, 2) for t_ in e5.pushes_to(p, max_n)] if max_n else "-")
+                break
+            # the shape of the input is asserted against the layer's declared input shape before it is applied
+            shp = [(t, pol) for (t, pol) in p.pc if isinstance(t, tuple) and t[0] == "bin" and t[1] in ("Eq", "Ne")
+                   and ("field", pay, "inputs") in (t[2], t[3]) and ("field", xin, "shape") in (t[2], t[3])]
+            if not any((t[1] == "Ne" and not pol) or (t[1] == "Eq" and pol) for (t, pol) in shp):
+                ok, why = False, "no shape assertion between the input and %s.inputs" % kind
+                break
+            # without an internal skip into this position the input is the previous position's output
+            plain = not any(e[0] in ("mut", "loop", "set", "mutcall") for e in p.eff)   # nothing is combined into the input on this path
+            if plain:
+                a1 = e5.is_call(xin, "unwrap", 1)
+                a2 = e5.is_call(a1[0], "last", 1) if a1 else None
+                if not (a2 and a2[0] == ("loopin", act_n, lid)):
+                    ok, why = False, "the input of the position is `%s`, not the last activation recorded so far" % e5.show(xin, 2)
+                    break
+                X0 = xin
+        ctx.check("R11.3", "position:" + kind, ok, "position-arm:" + kind, where, "assert shape; (pre, post[, max]) = layer.forward(x); recorded in order",
+                  "%s position (%d live path(s)): %s" % (kind, len(live), why))
+    ctx.check("R11.3", "consumes-last-activated", X0 is not None, "position-input", c.loc(fn, lnode), "x = activated.last().unwrap().clone()")
+    # the final output is flattened iff the flag is set
+    okf = True
+    seen_pol = set()
+    for p in fpaths:
+        fl = [pol for (t, pol) in p.pc if t == ("field", ("p", "self"), "flatten")]
+        outs = e5.pushes_to(p, act_n)
+        if not fl or not outs:
+            okf = False
+            break
+        seen_pol.add(fl[0])
+        fa = e5.is_call(outs[-1], "flatten", 1)
+        if (fl[0] and fa is None) or (not fl[0] and fa is not None):
+            okf = False
+    pops = all(any(e[0] == "mut" and e[1].endswith("::pop") and e[2] == ("local", act_n) for e in p.eff) for p in fpaths)
+    ctx.check("R11.3", "flatten-iff-flag", okf and seen_pol == {True, False} and pops, "flatten-handling", c.loc(fn), "the last output is popped and pushed back flattened iff self.flatten")
     # Network::feedback builds the block from the descriptions in order, chaining shapes
     nf = ctx.fn("network::Network::feedback")
     t = pretty(nf["body"])
     ok = "for layer in layers.iter()" in t and "feedback::Feedback::create(_layers, loops, inskips, outskips, accumulation)" in t
     ctx.check("R11.3", "construction", ok, "block-construction", c.loc(nf), "Feedback::create(_layers, loops, inskips, outskips, accumulation)")
+
+
+def _base_of(t):
+    """the collection a returned component is taken from: x[i] / x.last().unwrap() / f(x) -> x"""
+    while isinstance(t, tuple) and t:
+        if t[0] == "idx":
+            t = t[1]
+        elif t[0] == "call" and t[2]:
+            t = t[2][0]
+        elif t[0] == "var" and t[2]:
+            t = t[2][0]
+        else:
+            break
+    return t
+
+
+def _loop_inside(E, inner, outer):
+    """is loop `inner` nested in the body of loop `outer`?"""
+    from ..hir import walk as _w
+    on = E.loop_summaries[outer]["node"]
+    inn = E.loop_summaries[inner]["node"]
+    return any(x is inn for x in _w(on.get("body")))
 
 
 def run(ctx):
